@@ -6,7 +6,7 @@ every whole-byte truncation from full-1 bytes down to the identity header
 (2 bytes, 3 for 4076).  Oracle: constructing the message must fail.
 """
 
-from mc import core
+from mc import core, pinned
 from mc import refmodel as R
 from mc import shapes as S
 
@@ -32,6 +32,7 @@ def judge(case):
     cut = case["cut"]
     core.require(cut < len(payload) and cut * 8 < nbits, "C06 cut")
     _judge_cut(identity, payload, cut, out)
+    _judge_stale_frame(identity, payload, cut, out)
     return out
 
 
@@ -48,6 +49,31 @@ def _judge_cut(identity, payload, cut, out):
     out.bad("truncated-accepted",
             f"{identity}: payload of {len(payload)} bytes cut to {cut} bytes was accepted "
             f"({len(pub)} attributes, last {pub[-1] if pub else None}); payload {payload[:cut].hex()[:100]}")
+
+
+def _judge_stale_frame(identity, payload, cut, out):
+    """
+    The same truncated payload inside a frame buffer whose length field still announces the
+    complete size (CRC correct for the bytes present): the static parser must not fill the
+    missing fields from the CRC bytes.
+    """
+    from pyrtcm import RTCMReader  # pylint: disable=import-outside-toplevel
+
+    body = b"\xd3" + len(payload).to_bytes(2, "big") + payload[:cut]
+    buf = body + pinned.crc24q_table(body).to_bytes(3, "big")
+    for validate in (1, 0):
+        try:
+            msg = RTCMReader.parse(buf, validate=validate)
+        except Exception:  # pylint: disable=broad-except
+            continue
+        if bytes(msg.payload) == payload[:cut]:
+            sig = "truncated-accepted"
+        else:
+            sig = "truncated-accepted:fields-read-from-crc-bytes"
+        out.bad(sig, f"{identity}: frame buffer announcing {len(payload)} payload bytes but carrying "
+                f"{cut} (validate={validate}) was decoded into a message with a "
+                f"{len(msg.payload)}-byte payload")
+        break
 
 
 def _work(item):
@@ -67,6 +93,9 @@ def _work(item):
             for k, cut in enumerate(cuts):
                 out = core.Outcome()
                 _judge_cut(identity, payload, cut, out)
+                if len(payload) - cut <= 4 or k % 8 == 0:
+                    _judge_stale_frame(identity, payload, cut, out)
+                    st.extra["stale_length_frames"] = st.extra.get("stale_length_frames", 0) + 1
                 st.add({"id": identity, "shape": shape, "mode": mode, "cut": cut}, out,
                        keep_sample=(k == 0 and mode == "fp" and len(st.samples) < 1))
     return st
